@@ -418,7 +418,7 @@ func checkExplainNested(acts []builder.VerifC19NestedItem) (text, obs, fail, sig
 func hasUnmodelledKeyword(text string) bool {
 	for _, t := range builder.VerifC19Lex(text) {
 		switch t.Val {
-		case "GSUB6", "GPOS2", "GPOS3", "GPOS4":
+		case "GPOS2", "GPOS3", "GPOS4":
 			return true
 		}
 	}
@@ -657,9 +657,12 @@ func Gen(run *vlib.Run, seed uint64, tier string) {
 		kind := fontKinds[i%len(fontKinds)]
 		fs := genFont(r, kind)
 		var ll gtab.LookupList
-		labels := []string{"font:" + kind, "GSUB5"}
+		labels := []string{"font:" + kind, "GSUB5/6"}
 		for k := r.Range(1, 2); k > 0; k-- {
 			l := genCtxLookup(r, fs.numGlyphs())
+			if r.Bool() {
+				l = genChainLookup(r, fs.numGlyphs())
+			}
 			ll = append(ll, l)
 			labels = append(labels, fmt.Sprintf("flags:%d", l.Meta.LookupFlags), fmt.Sprintf("subtables:%d", len(l.Subtables)))
 			for _, s := range l.Subtables {
